@@ -521,6 +521,38 @@ PROPS["C06"] = {
     ],
 }
 
+# ---- C07 extension (units fwd_fixpoint, bwd_fixpoint, round 3) ----------------------------------------------------
+TWINS["fwd_fixpoint"] = [("GeneralizedContext", "c07b.adapter"), ("create_", "c07b.adapter"), ("merge_option", "c07b.adapter"), ("unwrap_value", "c07b.adapter")]
+TWINS["bwd_fixpoint"] = [("GeneralizedContext", "c07b.backward"), ("create_", "c07b.backward"), ("BfFns", "c07b.backward")]
+PROPS["C07"]["units"] = ["fixpoint", "fwd_fixpoint", "bwd_fixpoint"]
+PROPS["C07"]["default_twins"] = PROPS["C07"]["default_twins"] + ["c07b.adapter", "c07b.backward"]
+PROPS["C07"]["sweep_twins"] = PROPS["C07"]["sweep_twins"] + ["c07b.adapter", "c07b.backward"]
+PROPS["C07"]["level_text"] = PROPS["C07"]["level_text"] + (
+    " The adapters GeneralizedContext of forward_interprocedural_fixpoint.rs and backward_interprocedural_fixpoint/mod.rs (which turn an analysis' "
+    "interprocedural Context into the solver's transfer system) are extracted verbatim and verified too: for every graph, context and node value update_edge "
+    "equals a per-edge-kind specification written from the module documentation (forward: Block = short-circuiting fold of update_def; Jump = "
+    "specialize_conditional, then update_jump, an unsatisfiable condition blocks the edge; CallCombine / Call / CrCallStub / CrReturnStub / ReturnCombine / "
+    "ExternCallStub as documented; backward: defs folded last to first, call/return slots as documented), merge is slot-wise, the adapter is a checked instance "
+    "of the solver-level Context trait, create_bottom_up_worklist / create_top_down_worklist return a permutation of all nodes (what from_node_priority_list "
+    "requires, discharged at the real call sites), and no panic site is reachable under node-kind / value-variant preconditions that are proved to be an "
+    "inductive invariant of a solver run.")
+PROPS["C07"]["level_note"] = PROPS["C07"]["level_note"] + (
+    " Adapter units: the interprocedural Context traits are restated with one uninterpreted (deterministic) spec function per method; the solver's "
+    "Computation is opaque here with the contracts of new / from_node_priority_list copied from unit fixpoint (the two units sit on different petgraph shims, so "
+    "the composition solver + adapter is by matching contract text, not mechanical). Trusted: shim/fwd_fixpoint.rs (edge_endpoints, edge / node weight lookup, "
+    "retain_edges keeps the node count, kosaraju_scc partitions the node indices, flatten), R9 substitutions (panic! -> requires-false call; try_fold -> explicit "
+    "loop stopping at the first None with the closure body verbatim; .map(Constructor) -> closure; retain_edges predicate dropped; scc/flatten/collect chain), "
+    "hypothesis clone yields an equal value. Not decided: that graphs built by get_program_cfg satisfy the edge-kind preconditions (sampled by the twins "
+    "c07b.adapter / c07b.backward on built CFGs); lattice laws and monotonicity of the resulting system (hypotheses of C07).")
+PROPS["C07"]["not_covered"] = PROPS["C07"]["not_covered"] + [
+    "that CFGs built by get_program_cfg satisfy the adapters' edge-kind preconditions (C08 / bounded twins)",
+    "mechanical composition of unit fixpoint with the adapter units (different petgraph shims); the retain_edges predicates of the worklist constructors",
+]
+PROPS["C07"]["assumptions"] = PROPS["C07"]["assumptions"] + [
+    "adapter units: interprocedural Context traits restated (uninterpreted deterministic spec per method); Computation opaque with contracts copied from unit fixpoint",
+    "shim/fwd_fixpoint.rs: edge_endpoints, edge/node weight lookup, retain_edges, kosaraju_scc (partition of the node indices), flatten; R9 substitutions of the unit headers",
+]
+
 
 def twin_for(unit, label):
     for frag, twin in TWINS.get(unit, []):
